@@ -8,6 +8,7 @@ import (
 
 	"golang.org/x/tools/go/ssa"
 
+	"verif/checker/flow"
 	"verif/checker/ir"
 )
 
@@ -471,4 +472,89 @@ func getterField(c *Ctx, v ssa.Value) string {
 		return ""
 	}
 	return key
+}
+
+// ---- facts established by boolean helpers -------------------------------------------------------
+
+// fieldFact: the bool member `Field` is known to have value `Value` (or, for a test of another shape, the If and edge).
+type fieldFact struct {
+	Field string
+	Value bool
+}
+
+// boolFieldFacts: the bool members whose value is known when control reaches block b of fn: from the Ifs that control
+// b directly, and from Ifs on the result of library helpers of the form "check and report ok" — a helper whose every
+// `return true` lies behind `member == v` establishes that fact for the caller's ok-edge (two levels).
+func boolFieldFacts(c *Ctx, fn *ssa.Function, b *ssa.BasicBlock, depth int) []fieldFact {
+	var out []fieldFact
+	for _, g := range flow.Guards(fn, b) {
+		cond := g.If.Cond
+		if f, _, ok := ir.LoadedField(cond); ok {
+			if bt, isB := f.Type.Underlying().(*types.Basic); isB && bt.Kind() == types.Bool {
+				out = append(out, fieldFact{f.Key(), g.Branch})
+				continue
+			}
+		}
+		if depth >= 2 {
+			continue
+		}
+		var hc *ssa.Call
+		switch x := cond.(type) {
+		case *ssa.Call:
+			hc = x
+		case *ssa.Extract:
+			if cl, ok := x.Tuple.(*ssa.Call); ok && x.Index == cl.Call.Signature().Results().Len()-1 {
+				hc = cl
+			}
+		}
+		if hc == nil || !g.Branch {
+			continue
+		}
+		sc := ir.StaticCallee(hc)
+		if sc == nil || !c.P.IsLib(sc) {
+			continue
+		}
+		out = append(out, helperOKFacts(c, sc, depth+1)...)
+	}
+	return out
+}
+
+// helperOKFacts: facts that hold on every path on which the bool-returning helper returns true (as its last result).
+func helperOKFacts(c *Ctx, sc *ssa.Function, depth int) []fieldFact {
+	res := sc.Signature.Results()
+	if res.Len() == 0 || ir.TypeStr(res.At(res.Len()-1).Type()) != "bool" {
+		return nil
+	}
+	var common map[fieldFact]bool
+	first := true
+	ir.EachInstr(sc, func(blk *ssa.BasicBlock, _ int, in ssa.Instruction) {
+		r, ok := in.(*ssa.Return)
+		if !ok || blk == sc.Recover {
+			return
+		}
+		rs := ir.Results(r)
+		last := rs[len(rs)-1]
+		if cst, ok := last.(*ssa.Const); ok && cst.Value != nil && cst.Value.String() == "false" {
+			return // not an ok-return
+		}
+		facts := map[fieldFact]bool{}
+		for _, f := range boolFieldFacts(c, sc, blk, depth) {
+			facts[f] = true
+		}
+		if first {
+			common, first = facts, false
+			return
+		}
+		for f := range common {
+			if !facts[f] {
+				delete(common, f)
+			}
+		}
+	})
+	var out []fieldFact
+	for f := range common {
+		out = append(out, f)
+	}
+	sort.Slice(out, func(i, j int) bool { return out[i].Field < out[j].Field })
+	return out
 }
